@@ -15,10 +15,14 @@
 (***************************************************************************)
 EXTENDS Integers, Sequences, FiniteSets, TLC, Json
 CONSTANTS MaxOps, EmitFrom
-Items == {"wv1", "wp1", "wp1b", "wc1", "wh1", "wf1", "wf1b", "wf2", "wm1", "wfa", "wfam", "wfb", "wfm", "wfc", "wi1", "wca", "wcb", "wg1", "wg1a", "wg1b", "wpk"}
+Items == {"wv1", "wp1", "wp1b", "wc1", "wh1", "wf1", "wf1b", "wf2", "wm1", "wfa", "wfam", "wfb", "wfm", "wfc", "wi1", "wca", "wcb", "wg1", "wg1a", "wg1b", "wpk",
+          \* flavors whose names sort against their inheritance (the child first, an unrelated one between), a list as the default of
+          \* an inherited variable, a generic function with daemons next to its primary method
+          "wzb", "wzo", "wac", "wfl", "wfl2", "wg2", "wg2p", "wg2b", "wg2a"}
 Deps(i) == CASE i = "wp1b" -> {"wp1"} [] i = "wf1" -> {"wp1"} [] i = "wf1b" -> {"wf1"} [] i = "wf2" -> {"wf1"}
              [] i = "wfam" -> {"wfa"} [] i = "wfb" -> {"wfa"} [] i = "wi1" -> {"wfb"} [] i = "wfm" -> {"wfa"} [] i = "wfc" -> {"wfm"}
              [] i = "wcb" -> {"wca"} [] i = "wg1a" -> {"wca", "wg1"} [] i = "wg1b" -> {"wcb", "wg1a"}
+             [] i = "wac" -> {"wzb"} [] i = "wfl2" -> {"wfl"} [] i = "wg2p" -> {"wca", "wg2"} [] i = "wg2b" -> {"wg2p"} [] i = "wg2a" -> {"wg2p"}
              [] OTHER -> {}
 Text(i) == CASE i = "wv1" -> "(defvar wv1 '(1 \"two\" (3 . 4) #\\c sym :kw))"
              [] i = "wp1" -> "(defparameter wp1 12)"
@@ -40,12 +44,24 @@ Text(i) == CASE i = "wv1" -> "(defvar wv1 '(1 \"two\" (3 . 4) #\\c sym :kw))"
              [] i = "wg1" -> "(defgeneric wg1 (o))"
              [] i = "wg1a" -> "(defmethod wg1 ((o wca)) (list 'wca (wca-x o)))"
              [] i = "wg1b" -> "(defmethod wg1 ((o wcb)) (list 'wcb (wca-x o) (wcb-y o)))"
+             [] i = "wzb" -> "(defflavor wzz-base ((q 1)) () :gettable-instance-variables)"
+             [] i = "wzo" -> "(defflavor wzy-other ((r 2)) () :gettable-instance-variables)"
+             [] i = "wac" -> "(defflavor waa-child ((s 3)) (wzz-base) :gettable-instance-variables)"
+             [] i = "wfl" -> "(defflavor wfl ((lst '(1 2)) (n 0)) () :gettable-instance-variables)"
+             [] i = "wfl2" -> "(defflavor wfl2 ((n 5)) (wfl) :gettable-instance-variables)"
+             [] i = "wg2" -> "(progn (defvar wg2-trace nil) (defgeneric wg2 (o)))"
+             [] i = "wg2p" -> "(defmethod wg2 ((o wca)) (list 'p (wca-x o)))"
+             [] i = "wg2b" -> "(defmethod wg2 :before ((o wca)) (setq wg2-trace (cons 'b wg2-trace)))"
+             [] i = "wg2a" -> "(defmethod wg2 :after ((o wca)) (setq wg2-trace (cons 'a wg2-trace)))"
              [] i = "wpk" -> "(progn (defpackage \"wpk\" (:use \"common-lisp\") (:export \"pf\")) (in-package \"wpk\") (defun pf (x) (list 'pf x)) (in-package \"common-lisp-user\"))"
 \* the probes: Lisp text, evaluated and printed with prin1 (an error is the text "error")
 Probes == <<"wv1", "wp1", "wc1", "(gethash 'k wh1)", "(gethash \"s\" wh1)", "(hash-table-count wh1)", "(wf1 5)", "(wf1 1)", "(wf1 2 4)", "(wf2 1)", "(wf2 1 7 :c 8)", "(wm1 4)",
             "(send (make-instance 'wfa) :a)", "(send (make-instance 'wfa :a 4) :double)", "(send (make-instance 'wfb) :c)", "(send (make-instance 'wfb :a 6) :double)",
             "(send wi1 :a)", "(send wi1 :c)", "(send (make-instance 'wfm) :a)", "(send (make-instance 'wfc) :a)", "(send (make-instance 'wfc) :b)", "(wca-x (make-instance 'wca))", "(wca-x (make-instance 'wcb :x 9))", "(wcb-y (make-instance 'wcb))",
-            "(wg1 (make-instance 'wca))", "(wg1 (make-instance 'wcb :x 2))", "(wpk:pf 3)">>
+            "(wg1 (make-instance 'wca))", "(wg1 (make-instance 'wcb :x 2))", "(wpk:pf 3)",
+            "(send (make-instance 'waa-child) :q)", "(send (make-instance 'waa-child) :s)", "(send (make-instance 'wzy-other) :r)",
+            "(send (make-instance 'wfl2) :lst)", "(send (make-instance 'wfl2) :n)",
+            "(wg2 (make-instance 'wca))", "(progn (setq wg2-trace nil) (wg2 (make-instance 'wca)) wg2-trace)">>
 Wp(d) == IF "wp1b" \in d THEN 40 ELSE 12
 Wf1(d, x) == IF "wf1b" \in d THEN (IF x * 3 < 10 THEN x * 3 ELSE x * 3 - 1) ELSE x + Wp(d)
 Num(n) == IF n = 0 THEN "0" ELSE LET RECURSIVE ds(_)
@@ -81,6 +97,16 @@ Expected(d, p) ==
     [] p = "(wg1 (make-instance 'wca))" -> IF has("wg1a") THEN "(wca 5)" ELSE err
     [] p = "(wg1 (make-instance 'wcb :x 2))" -> IF has("wg1b") THEN "(wcb 2 \"why\")" ELSE IF has("wg1a") /\ has("wcb") THEN "(wca 2)" ELSE err
     [] p = "(wpk:pf 3)" -> IF has("wpk") THEN "(pf 3)" ELSE err
+    [] p = "(send (make-instance 'waa-child) :q)" -> IF has("wac") THEN "1" ELSE err
+    [] p = "(send (make-instance 'waa-child) :s)" -> IF has("wac") THEN "3" ELSE err
+    [] p = "(send (make-instance 'wzy-other) :r)" -> IF has("wzo") THEN "2" ELSE err
+    [] p = "(send (make-instance 'wfl2) :lst)" -> IF has("wfl2") THEN "(1 2)" ELSE err
+    [] p = "(send (make-instance 'wfl2) :n)" -> IF has("wfl2") THEN "5" ELSE err
+    [] p = "(wg2 (make-instance 'wca))" -> IF has("wg2p") THEN "(p 5)" ELSE err
+    \* the :before daemon runs before and the :after daemon after the primary method: each pushes its mark
+    [] p = "(progn (setq wg2-trace nil) (wg2 (make-instance 'wca)) wg2-trace)" ->
+         IF ~has("wg2p") THEN err
+         ELSE IF has("wg2b") /\ has("wg2a") THEN "(a b)" ELSE IF has("wg2b") THEN "(b)" ELSE IF has("wg2a") THEN "(a)" ELSE "nil"
 
 VARIABLES defined, hist
 Init == defined = {} /\ hist = <<>>
